@@ -31,7 +31,10 @@ def dataclass_fields(
 class JSONBase(AsJSONMixin):
     def __init_subclass__(cls: type, **kwargs):
         super().__init_subclass__(**kwargs)
-        __from_json__class__[cls.__name__] = cls
+        # NOTE: a node class of a user grammar (::Token, ::Rule) must not replace the grammar-model class of that name
+        known = __from_json__class__.get(cls.__name__)
+        if known is None or not known.__module__.startswith('tatsu.peg'):
+            __from_json__class__[cls.__name__] = cls
 
     @classmethod
     def __from_json__(cls: type[Self], data: Mapping[str, Any]) -> Self:
